@@ -395,6 +395,11 @@ class Builtins:
     def b_zip(self, it, args, kwargs, fr):
         return VGen("zip", srcs=list(args), strict=kwargs.get("strict"))
 
+    def b_map(self, it, args, kwargs, fr):
+        if len(args) != 2:
+            raise Unsupported("map with several iterables")
+        return VGen("map", fn=args[0], src=args[1], frame=fr)
+
     def b_super(self, it, args, kwargs, fr):
         if args:
             raise Unsupported("super with arguments")
@@ -628,6 +633,29 @@ class Builtins:
             return r
         if g.kind == "setlit":
             return it.seq_of(PyList(g.items))
+        if g.kind == "map":
+            g.consumed = True
+            base = it.iter_to_seq(it.force(g.src, fr), fr)
+            n = z3.Length(base.term)
+            i = it.bound("mi", z3.IntSort())
+            nfr = self._child_frame(g.frame, pure=True)
+            nfr.pure_code = True
+            guard = z3.And(i >= 0, i < n)
+            it.pure_ctx.append(([i], guard))
+            it.binder_stack.append([])
+            try:
+                ev = it.call_value(g.fn, [it.assume_wf(SV(base.ty.elem, base.term[i]))], {}, nfr)
+            finally:
+                it.pure_ctx.pop()
+                facts = it.binder_stack.pop()
+            if facts:
+                it.assume(z3.ForAll([i], z3.Implies(guard, z3.And(facts))))
+            if isinstance(ev, (PyTuple, PyList)):
+                ev = it.coerce(ev, it.val_ty(ev))
+            res = it.fresh("mapped", z3.SeqSort(ev.ty.sort()))
+            it.assume(z3.Length(res) == n)
+            it.assume(z3.ForAll([i], z3.Implies(guard, res[i] == ev.term)))
+            return SV(TSeq(ev.ty), res)
         raise Unsupported(f"materialise generator {g.kind}")
 
     def some_order(self, it, d: SV) -> SV:
